@@ -138,6 +138,13 @@ func simpleFetch(ctx context.Context, gs []storage.Graph, cls *semantic.GraphCla
 		if err != nil {
 			return nil, err
 		}
+		// Exist knows nothing about time bounds: a temporal predicate anchored
+		// outside the requested interval cannot match.
+		if ta, err := p.TimeAnchor(); err == nil {
+			if (lo.LowerAnchor != nil && ta.Before(*lo.LowerAnchor)) || (lo.UpperAnchor != nil && ta.After(*lo.UpperAnchor)) {
+				return tbl, nil
+			}
+		}
 		for _, g := range gs {
 			gID := g.ID(ctx)
 			tracer.V(2).Trace(w, func() *tracer.Arguments {
